@@ -88,6 +88,12 @@ CALLBACKS = {
         # not symmetric: tells which argument is which
         _named(lambda a, b: type(a) is int and type(b) is int and a <= b, "le"),
     ],
+    "action": [
+        _named(lambda *a: None, "noop"),
+        _named(lambda *a: 0, "returns_falsy"),
+        _raiser_on(1, "action"),
+        _named(lambda *a: (_ for _ in ()).throw(Boom("always")), "raise_always"),
+    ],
     "accumulator": [
         _named(lambda acc, x: (acc, x), "pair"),
         _named(lambda acc, x: x, "keep_right"),
